@@ -1,7 +1,7 @@
 (* SqlFmt/Properties.v — C16: SQL reformatting preserves statements (expression fragment, token level). *)
 From Common Require Import Base.
 From Coq Require Import Ascii String.
-From SqlFmt Require Import PrecClimb PrecClimbProofs Model Proofs LexProofs WfText.
+From SqlFmt Require Import PrecClimb PrecClimbProofs Model Proofs LexProofs WfText Model2 Proofs2.
 Open Scope N_scope.
 
 (* The property for the modelled fragment, at full strength: for the real tier table and the real keyword table,
@@ -106,3 +106,35 @@ Example C16_statement_text_ex :
 Proof. eexists. split; [vm_compute; reflexivity|]. cbn. repeat split. Qed.
 Example C16_quote_ex : lex (quote 39 (L "it's")) = LOk [(3, L "it's", false)].
 Proof. vm_compute. reflexivity. Qed.
+
+(* ---- second expression type (Model2.v): IS [NOT] NULL / ISNULL / NOTNULL, x IS [NOT] y, [NOT] LIKE-family,
+   [NOT] BETWEEN lo AND hi (bounds at the bit-operator tier, one above AND), [NOT] IN (list), calls f(args), tuples *)
+Theorem C16_tbl2_ok : wf_table str_eqb tbl2 = true.
+Proof. exact tbl2_ok. Qed.
+
+(* every tree the extended parser returns is read back from its print (fused token lists; fuel bound: the generic
+   |tbl2| + (|tbl2|+2)*|tokens| of PrecClimb.parse) *)
+Theorem C16_reparse2 : forall kws ts e,
+  covers kws = true -> parse2f ts = Some e -> parse2f (print2f kws e) = Some e.
+Proof. exact reparse2. Qed.
+
+(* every canonical tree nested as the extended tiers allow is read back from its print *)
+Theorem C16_roundtrip2 : forall kws e,
+  WF tbl2 (atom_ok kws) tbl2 (enc e) -> dec (enc e) = Some e -> parse2f (print2f kws e) = Some e.
+Proof. exact roundtrip2. Qed.
+
+(* non-vacuity: real-vocabulary tokens of
+   f(a, 2) NOT BETWEEN 1 AND x + 2 AND b IS NOT NULL OR c NOT LIKE 'p' AND d IN (1, 2) AND e ISNULL *)
+Definition ex2_toks : list stok :=
+  [(1, L "f", false); (6, L "(", false); (1, L "a", false); (6, L ",", false); (2, L "2", false); (6, L ")", false);
+   (1, L "not", false); (1, L "between", false); (2, L "1", false); (1, L "and", false); (1, L "x", false);
+   (7, L "+", false); (2, L "2", false); (1, L "AND", false); (1, L "b", false); (1, L "is", false);
+   (1, L "not", false); (1, L "null", false); (1, L "or", false); (1, L "c", false); (1, L "NOT", false);
+   (1, L "like", false); (3, L "p", false); (1, L "and", false); (1, L "d", false); (1, L "in", false);
+   (6, L "(", false); (2, L "1", false); (6, L ",", false); (2, L "2", false); (6, L ")", false);
+   (1, L "and", false); (1, L "e", false); (1, L "isnull", false)].
+Example C16_reparse2_ex :
+  exists e, parse2 ex2_toks = Some e /\ parse2f (print2f kws_pinned e) = Some e /\
+            parse2 (print2 kws_pinned e) = Some e /\
+            match e with X2Bin _ (X2Bin _ (X2Between (X2Call _ _) _ _ true) (X2IsNull _ true)) _ => True | _ => False end.
+Proof. eexists. repeat split; vm_compute; reflexivity. Qed.
